@@ -3,7 +3,8 @@
    (repaired), anything else = it still leaves defined behaviour.  gen_rtparams.py turns the two answers into
    p_clone_struct_fixed / p_slice_clamped of the model parameters, so that the model follows the code that is present.
      dump_rtfix clone-struct      9 x push_struct(3 bytes), dyn_array_clone, compare
-     dump_rtfix slice-overflow    nl_array_slice([1,2,3], 1, INT64_MAX) must be [2,3] */
+     dump_rtfix slice-overflow    nl_array_slice([1,2,3], 1, INT64_MAX) must be [2,3]
+     dump_rtfix push-own-elem     push_struct(a, get_struct(a, i), elem_size) with length == capacity */
 #include <stdio.h>
 #include <stdlib.h>
 #include <string.h>
@@ -31,6 +32,17 @@ int main(int argc, char **argv) {
         dyn_array_push_int(a, 1); dyn_array_push_int(a, 2); dyn_array_push_int(a, 3);
         DynArray *s = nl_array_slice(a, 1, INT64_MAX);
         if (!s || dyn_array_length(s) != 2 || dyn_array_get_int(s, 0) != 2 || dyn_array_get_int(s, 1) != 3) return 3;
+        printf("OK\n"); return 0;
+    }
+    if (!strcmp(argv[1], "push-own-elem")) {
+        /* what the transpiler emits for (array_push xs (at xs i)) on an array<struct>, at length == capacity (8, then 16) */
+        DynArray *a = dyn_array_new(ELEM_STRUCT);
+        for (int i = 0; i < 8; i++) { uint8_t s[3] = {(uint8_t)i, 9, (uint8_t)(i + 100)}; dyn_array_push_struct(a, s, 3); }
+        a = dyn_array_push_struct(a, dyn_array_get_struct(a, 0), a->elem_size);
+        for (int i = 9; i < 16; i++) { uint8_t s[3] = {(uint8_t)i, 9, (uint8_t)(i + 100)}; dyn_array_push_struct(a, s, 3); }
+        a = dyn_array_push_struct(a, dyn_array_get_struct(a, 15), a->elem_size);
+        uint8_t *p8 = dyn_array_get_struct(a, 8), *p16 = dyn_array_get_struct(a, 16);
+        if (dyn_array_length(a) != 17 || !p8 || p8[0] != 0 || p8[2] != 100 || !p16 || p16[0] != 15 || p16[2] != 115) return 3;
         printf("OK\n"); return 0;
     }
     return 2;
